@@ -255,3 +255,22 @@ struct FileContent {
     content: String,
     is_remote: bool,
 }
+
+/// Entry counts of every map of this index (verification hook, add-only, off by default).
+#[cfg(feature = "verif")]
+impl Vfs {
+    pub fn verif_sizes(&self) -> Vec<(String, usize)> {
+        let p = "vfs";
+        let mut v: Vec<(String, usize)> = Vec::new();
+        let mut put = |name: &str, n: usize| v.push((format!("{p}.{name}"), n));
+        put("file_id_map", self.file_id_map.len());
+        put("file_path_map", self.file_path_map.len());
+        put("remote_file_id_map", self.remote_file_id_map.len());
+        put("file_data.slots", self.file_data.len());
+        put("file_data.live", self.file_data.iter().filter(|d| d.is_some()).count());
+        put("line_index_map", self.line_index_map.len());
+        put("tree_map", self.tree_map.len());
+
+        v
+    }
+}
